@@ -4,7 +4,18 @@ CHECKS[pid] = dict(text=..., note=..., technique=..., design_ref=..., engine=...
 NOT_APPLICABLE[pid] = reason.  Every property of properties.jsonl is in exactly one.
 """
 
+import glob
+import json
+import os
+
 CHECKS = {}
+# one file per claimed property: checks/meta/Cxx.json  {text, note, technique, ties, category?, design_ref?}
+for _f in sorted(glob.glob(os.path.join(os.path.dirname(os.path.abspath(__file__)), "meta", "C*.json"))):
+    CHECKS[os.path.basename(_f)[:-5]] = json.load(open(_f))
+HOOK_COMMITS = []
+_h = os.path.join(os.path.dirname(os.path.abspath(__file__)), "meta", "hook_commits.txt")
+if os.path.exists(_h):
+    HOOK_COMMITS = [l.split()[0] for l in open(_h) if l.strip() and not l.startswith("#")]
 
 NOT_APPLICABLE = {
     "C35": "memory safety / termination of the whole mfront front end on arbitrary bytes: no executable Lean model short of a C++ semantics expresses it; fuzzing is not a proof (DESIGN §6). Its lexer is covered by C31.",
